@@ -261,6 +261,16 @@ def target_class():
                     yield i
                 _raise(spec)
 
+        @expose
+        class FallbackTarget(Target):
+            """the same members on a class that also defines __getattr__ (a catch-all for unknown public names): an exception a member
+            raises - AttributeError included - is still that member's exception, never the fallback's answer"""
+            def __getattr__(self, name):
+                if name.startswith("_"):
+                    raise AttributeError("no such attribute (fallback): " + name)
+                return None
+
+        Target.with_fallback = FallbackTarget
         _target_cls = Target
     return _target_cls
 
@@ -268,6 +278,7 @@ def target_class():
 _SERVED = {}
 _atexit_done = False
 OBJ_ID = "c07.target"
+OBJ_ID_FALLBACK = "c07.target.with.getattr"
 
 
 def stop_all():
@@ -296,6 +307,7 @@ def served(servertype):
         else:
             s = live.Served(servertype)
         s.daemon.register(target_class()(), OBJ_ID)
+        s.daemon.register(target_class().with_fallback(), OBJ_ID_FALLBACK)
         s.v_connections = 0
         _SERVED[servertype] = s
         if not _atexit_done:
@@ -627,7 +639,7 @@ def run_live_case(case):
         exp_msg = str(spec["args"][0])     # str() of the whole args tuple contains the address of the foreign object
 
     s = served(case["servertype"])
-    p = live.proxy(s.uri(OBJ_ID), serializer=ser, timeout=HANG_GUARD_S)
+    p = live.proxy(s.uri(OBJ_ID_FALLBACK if case.get("fallback") else OBJ_ID), serializer=ser, timeout=HANG_GUARD_S)
     scope = live.ConfigScope(DETAILED_TRACEBACK=bool(case.get("detailed", False)))
     scope.__enter__()
     try:
@@ -1065,6 +1077,8 @@ def case_strategy(draw, servertype, ser):
             "k": k if kind in ("batch-middle", "batch-last", "stream") else 0, "spec": spec}
     if detailed:
         case["detailed"] = True
+    if draw(st.integers(0, 3)) == 0:
+        case["fallback"] = True         # the target's class also defines __getattr__
     return case
 
 
@@ -1110,6 +1124,8 @@ def _labels(case):
         l += ["kind:" + case["kind"], "servertype:" + case["servertype"], "family:" + family(case)]
         if case.get("detailed"):
             l.append("config:DETAILED_TRACEBACK")
+        if case.get("fallback"):
+            l.append("target-class-defines-__getattr__")
         d = int(spec.get("depth", 0))
         l.append("raised-%s-frames-below-the-member" % ("0" if d == 0 else "1-9" if d < 10 else "50+"))
     sp = spec.get("special") or {}
